@@ -1,4 +1,7 @@
 """C20 — deprecating a class keeps identifiers and makes old results reachable."""
-FUNCS = ["ObjectType.deprecate"]
+FUNCS = ["ObjectType.deprecate", "fix_deprecated"]
 LEVEL = "proof"
 TRUSTED = []
+
+from bounded.wire import run_c20
+BOUNDED = [("deprecated identifiers and repair command on workspaces", run_c20)]
